@@ -249,8 +249,11 @@ def check_scenario(V, ops, mouts, impl, shadow_path):
     mkdb(shadow_path)
     conn = sqlite3.connect(shadow_path)
     hist = []
+    nv0 = V.nviol
     try:
         for o, m, im in zip(ops, mouts, impl):
+            if V.nviol > nv0:
+                break          # later ops of a scenario that already failed would only repeat the report
             hist.append(describe(o))
             mf = m.split(US)
             sql = C.dec(mf[1])
